@@ -17,16 +17,19 @@ pub const M: u8 = 4; // module next to C1 (visible only if a conftest imports it
 pub const T2: u8 = 5; // another test module (never visible from U)  /bb/t_o.py
 pub const P: u8 = 6; // workspace plugin (pytest11 entry point)      /p/pp.py
 pub const V: u8 = 7; // third-party                                   /site-packages/v.py
-pub const NFILES: usize = 8;
+pub const C2: u8 = 8; // leaf conftest one level below C1          /a/c/conftest.py
+pub const U3: u8 = 9; // test module in the leaf directory           /a/c/t_u.py
+pub const NFILES: usize = 10;
 
 macro_rules! rooted { ($s:literal) => { concat!(env!("PLSV_ROOT"), $s) }; }
 pub const PATHS: [&str; NFILES] = [
     rooted!("/a/t_u.py"), rooted!("/a/conftest.py"), rooted!("/conftest.py"), rooted!("/bb/conftest.py"),
     rooted!("/a/m.py"), rooted!("/bb/t_o.py"), rooted!("/p/pp.py"), rooted!("/site-packages/v.py"),
+    rooted!("/a/c/conftest.py"), rooted!("/a/c/t_u.py"),
 ];
 pub const ROOT: &str = env!("PLSV_ROOT");
 pub fn path(f: u8) -> &'static str { PATHS[f as usize] }
-/// path lengths are pairwise distinct (9,14,12,15,7,10,8,20 + root), so a path's length identifies the file
+/// path lengths are pairwise distinct (9,14,12,15,7,10,8,20,16,11 + root), so a path's length identifies the file
 /// without a (solver-expensive) component-wise Path comparison
 pub fn file_of(p: &Path) -> u8 {
     let n = p.as_os_str().len();
@@ -34,9 +37,9 @@ pub fn file_of(p: &Path) -> u8 {
     while (i as usize) < NFILES { if PATHS[i as usize].len() == n { return i; } i += 1; }
     255
 }
-pub fn is_conftest(f: u8) -> bool { f == C1 || f == C0 || f == S }
-/// directory level of a file: 0 = root, 1 = /a, 2 = /b, 3 = elsewhere
-pub fn dir_of(f: u8) -> u8 { match f { U | C1 | M => 1, C0 => 0, S | T2 => 2, _ => 3 } }
+pub fn is_conftest(f: u8) -> bool { f == C1 || f == C0 || f == S || f == C2 }
+/// directory of a file: 0 = root, 1 = /a, 2 = /bb, 4 = /a/c, 3 = elsewhere
+pub fn dir_of(f: u8) -> u8 { match f { U | C1 | M => 1, C0 => 0, S | T2 => 2, C2 | U3 => 4, _ => 3 } }
 
 #[derive(Clone)]
 pub struct DefS {
@@ -58,6 +61,8 @@ pub struct TestS {
     pub usefix: Option<&'static str>,
     /// `@pytest.mark.parametrize("NAME", [1], indirect=True)` on line-1
     pub indirect: Option<&'static str>,
+    /// the test function is placed ABOVE the file's fixture definitions (default: below them)
+    pub before_defs: bool,
 }
 #[derive(Clone, Copy, PartialEq)]
 pub struct Imp {
@@ -78,6 +83,8 @@ pub struct World {
     pub imp_c0: Imp,
     /// `pytestmark = pytest.mark.usefixtures("NAME")` on line 2 of U
     pub pytestmark_u: Option<&'static str>,
+    /// the third-party file V was itself discovered through a pytest11 entry point (is_plugin AND is_third_party)
+    pub v_is_plugin: bool,
     /// direct builder: put the generated text into file_cache (position queries read it); else empty text
     pub with_text: bool,
 }
@@ -86,14 +93,14 @@ impl World {
     pub fn new(order: &[u8]) -> World {
         World { order: order.to_vec(), defs: Vec::with_capacity(8), tests: Vec::with_capacity(4),
                 c1_present: order.contains(&C1), c0_present: order.contains(&C0),
-                imp_c1: Imp { on: false, kind: 0 }, imp_c0: Imp { on: false, kind: 0 }, pytestmark_u: None, with_text: false }
+                imp_c1: Imp { on: false, kind: 0 }, imp_c0: Imp { on: false, kind: 0 }, pytestmark_u: None, v_is_plugin: false, with_text: false }
     }
     pub fn def(&mut self, file: u8, name: &'static str, line: usize) -> usize {
         self.defs.push(DefS { file, name, line, scope: FixtureScope::Function, autouse: false, deps: Vec::new(), multiline: false });
         self.defs.len() - 1
     }
     pub fn test(&mut self, file: u8, line: usize, params: &[&'static str]) {
-        self.tests.push(TestS { file, line, params: params.to_vec(), usefix: None, indirect: None });
+        self.tests.push(TestS { file, line, params: params.to_vec(), usefix: None, indirect: None, before_defs: false });
     }
     pub fn test_first_line(t: &TestS) -> usize { if t.usefix.is_some() || t.indirect.is_some() { t.line - 2 } else { t.line } }
     pub fn has_file(&self, f: u8) -> bool { self.order.contains(&f) }
@@ -111,16 +118,20 @@ impl World {
     /// lines a definition occupies: decorator line-1, def line, (+2 continuation lines when multiline)
     pub fn def_last_line(d: &DefS) -> usize { if d.multiline { d.line + 2 } else { d.line } }
     /// well-formedness the native text generator needs (no overlapping statements in one file)
-    /// Per file: statements (definitions in declaration order, then tests in declaration order) occupy
+    /// Per file: statements (tests flagged before_defs, then definitions, then the other tests — each group in declaration order) occupy
     /// strictly ascending, non-overlapping line spans starting at line 3.
     pub fn layout_ok(&self) -> bool {
         for f in 0..NFILES as u8 {
             let mut prev_end: usize = 2; // line 1 = import pytest, line 2 = import statement slot
+            for t in self.tests.iter().filter(|t| t.file == f && t.before_defs) {
+                if t.line < 3 || Self::test_first_line(t) <= prev_end { return false; }
+                prev_end = t.line;
+            }
             for d in self.defs.iter().filter(|d| d.file == f) {
                 if d.line - 1 <= prev_end { return false; }
                 prev_end = Self::def_last_line(d);
             }
-            for t in self.tests.iter().filter(|t| t.file == f) {
+            for t in self.tests.iter().filter(|t| t.file == f && !t.before_defs) {
                 if t.line < 3 || Self::test_first_line(t) <= prev_end { return false; }
                 prev_end = t.line;
             }
@@ -213,6 +224,8 @@ pub fn file_text(w: &World, f: u8) -> String {
     out
 }
 
+/// set by the builders from `World.v_is_plugin` (mk_def has no world at hand)
+pub static mut V_IS_PLUGIN: bool = false;
 pub fn mk_def(d: &DefS) -> FixtureDefinition {
     FixtureDefinition {
         name: d.name.to_string(),
@@ -224,7 +237,7 @@ pub fn mk_def(d: &DefS) -> FixtureDefinition {
         docstring: None,
         return_type: None,
         is_third_party: d.file == V,
-        is_plugin: d.file == P,
+        is_plugin: d.file == P || (d.file == V && unsafe { V_IS_PLUGIN }),
         dependencies: d.deps.iter().filter(|s| **s != "request" && **s != "self").map(|s| s.to_string()).collect(),
         scope: d.scope,
         yield_line: None,
@@ -242,6 +255,16 @@ pub fn usages_of_file(w: &World, f: u8) -> Vec<FixtureUsage> {
     if f == U && import_text(w, f).is_none() {
         if let Some(n) = w.pytestmark_u { out.push(mk_use(f, n, 2, PYTESTMARK_COL, PYTESTMARK_COL + n.len())); }
     }
+    for t in w.tests.iter().filter(|t| t.file == f && t.before_defs) {
+        let v = &mut out;
+        if let Some(n) = t.usefix { v.push(mk_use(f, n, t.line - 2, USEFIX_COL, USEFIX_COL + n.len())); }
+        if let Some(n) = t.indirect { v.push(mk_use(f, n, t.line - 1, USEFIX_COL, USEFIX_COL + n.len())); }
+        for k in 0..t.params.len() {
+            if t.params[k] == "self" { continue; }
+            let (l, s, e) = test_param_span(t, k);
+            v.push(mk_use(f, t.params[k], l, s, e));
+        }
+    }
     for d in w.defs.iter().filter(|d| d.file == f) {
         let v = &mut out;
         for k in 0..d.deps.len() {
@@ -250,7 +273,7 @@ pub fn usages_of_file(w: &World, f: u8) -> Vec<FixtureUsage> {
             v.push(mk_use(f, d.deps[k], l, s, e));
         }
     }
-    for t in w.tests.iter().filter(|t| t.file == f) {
+    for t in w.tests.iter().filter(|t| t.file == f && !t.before_defs) {
         let v = &mut out;
         if let Some(n) = t.usefix { v.push(mk_use(f, n, t.line - 2, USEFIX_COL, USEFIX_COL + n.len())); }
         if let Some(n) = t.indirect { v.push(mk_use(f, n, t.line - 1, USEFIX_COL, USEFIX_COL + n.len())); }
@@ -295,6 +318,7 @@ pub fn build(w: &World, _fill: Fill) -> FixtureDatabase { build_native(w) }
 
 /// Direct construction of the index state the analyzer leaves behind for this world.
 pub fn build_direct(w: &World, fill: Fill, keys: Option<&[&'static str]>) -> FixtureDatabase {
+    unsafe { V_IS_PLUGIN = w.v_is_plugin; }
     let db = FixtureDatabase::new();
     let reg = w.registration();
     for name in name_order(w, &reg, keys) {
@@ -337,9 +361,11 @@ pub fn build_direct(w: &World, fill: Fill, keys: Option<&[&'static str]>) -> Fix
 pub fn build_native(w: &World) -> FixtureDatabase {
     assert!(!ROOT.is_empty(), "native build needs PLSV_ROOT");
     let _ = std::fs::remove_dir_all(ROOT);
-    for d in ["/a", "/bb", "/p", "/site-packages"] { std::fs::create_dir_all(format!("{}{}", ROOT, d)).unwrap(); }
+    for d in ["/a/c", "/bb", "/p", "/site-packages"] { std::fs::create_dir_all(format!("{}{}", ROOT, d)).unwrap(); }
     let db = FixtureDatabase::new();
+    unsafe { V_IS_PLUGIN = w.v_is_plugin; }
     if w.has_file(P) { db.plugin_fixture_files.insert(PathBuf::from(path(P)), ()); }
+    if w.has_file(V) && w.v_is_plugin { db.plugin_fixture_files.insert(PathBuf::from(path(V)), ()); }
     for &f in &w.order { std::fs::write(path(f), file_text(w, f)).unwrap(); }
     for &f in &w.order { db.analyze_file(PathBuf::from(path(f)), &file_text(w, f)); }
     db
